@@ -343,6 +343,11 @@ func checkC16(c *core.Ctx, l *core.Ledger) {
 			why = "Plugins.Handle call or deferred Close not found"
 		}
 		l.Check(ok, "CLOSE", "main.do", c.Rel(f.Pos()), "the deferred Close is registered before any return that follows a successful Plugins.Handle, and nothing else closes the handles earlier", why)
+		// CLOSE-ERR: what the deferred Close reports becomes part of do's result
+		if deferClose != nil {
+			why := closeErrorReachesResult(f, deferClose.(*ssa.Defer))
+			l.Check(why == "", "CLOSE", "main.do:close-error", c.Rel(deferClose.Pos()), "the error of the deferred Close is stored into the function's result, which is read after the deferred calls ran", why)
+		}
 	} else {
 		l.Unk("CLOSE", "main.do", "", "not found")
 	}
@@ -743,6 +748,105 @@ func closesWholeCollection(f *ssa.Function, closeCall ssa.Instruction) string {
 	}
 	if len(cyc) == 0 {
 		return "on a partial failure Close is called on something other than the collection the opened handles were stored in"
+	}
+	return ""
+}
+
+// closeErrorReachesResult: the deferred call d closes the plugins; its error
+// must end up in f's error result. That needs (1) a result cell: every return
+// of f yields a load of one local cell made after the deferred calls ran (a
+// named result), and (2) inside the deferred closure, a store into that cell of
+// a value computed from the Close call's result.
+func closeErrorReachesResult(f *ssa.Function, d *ssa.Defer) string {
+	var cell *ssa.Alloc
+	bad := ""
+	core.Instrs(f, func(in ssa.Instruction) {
+		r, ok := in.(*ssa.Return)
+		if !ok || len(r.Results) == 0 || bad != "" || r.Block() == f.Recover {
+			return
+		}
+		ld, isLoad := r.Results[len(r.Results)-1].(*ssa.UnOp)
+		var a *ssa.Alloc
+		if isLoad {
+			a, _ = ld.X.(*ssa.Alloc)
+		}
+		if a == nil || (cell != nil && a != cell) {
+			bad = "the function's error result is not a cell that deferred calls can still assign (the value is fixed at the return statement, before the deferred Close runs)"
+			return
+		}
+		// the load follows RunDefers in its block
+		seenRun := false
+		for _, i2 := range r.Block().Instrs {
+			if _, isRD := i2.(*ssa.RunDefers); isRD {
+				seenRun = true
+			}
+			if i2 == ssa.Instruction(ld) && !seenRun {
+				bad = "the function's error result is read before the deferred calls run"
+			}
+		}
+		cell = a
+	})
+	if bad != "" {
+		return bad
+	}
+	if cell == nil {
+		return "no return found"
+	}
+	mc, ok := d.Call.Value.(*ssa.MakeClosure)
+	if !ok {
+		return "Close is deferred directly: its error is discarded"
+	}
+	fn := mc.Fn.(*ssa.Function)
+	var fv *ssa.FreeVar
+	for i, b := range mc.Bindings {
+		if b == ssa.Value(cell) && i < len(fn.FreeVars) {
+			fv = fn.FreeVars[i]
+		}
+	}
+	if fv == nil {
+		return "the deferred closure does not capture the function's result"
+	}
+	// values derived from a Close call's result
+	derived := map[ssa.Value]bool{}
+	core.Instrs(fn, func(in ssa.Instruction) {
+		if call, ok := in.(*ssa.Call); ok {
+			name := ""
+			if call.Common().IsInvoke() {
+				name = call.Common().Method.Name()
+			} else if cal := call.Common().StaticCallee(); cal != nil {
+				name = cal.Name()
+			}
+			if name == "Close" {
+				derived[call] = true
+			}
+		}
+	})
+	for changed := true; changed; {
+		changed = false
+		core.Instrs(fn, func(in ssa.Instruction) {
+			v, ok := in.(ssa.Value)
+			if !ok || derived[v] {
+				return
+			}
+			for _, op := range in.Operands(nil) {
+				if op != nil && *op != nil && derived[*op] {
+					switch in.(type) {
+					case *ssa.Call, *ssa.Phi, *ssa.MakeInterface, *ssa.ChangeInterface, *ssa.Extract:
+						derived[v] = true
+						changed = true
+					}
+				}
+			}
+		})
+	}
+	stored := false
+	core.Instrs(fn, func(in ssa.Instruction) {
+		if st, ok := in.(*ssa.Store); ok && st.Addr == ssa.Value(fv) && derived[st.Val] {
+			stored = true
+		}
+	})
+	if !stored {
+		return "the deferred closure does not store a value computed from Close's error into the function's result"
 	}
 	return ""
 }
